@@ -63,6 +63,41 @@ def operands_after_derivation(t):
             yield ot, obj, v, check_pair(ot, obj, v)
 
 
+_EXTENDED = []
+
+
+def user_extensions():
+    """The user extends the SUBSTITUTION validator - a visitor two levels below SchemaVisitor -
+    through the documented `extend=True` route with lenient visit methods of its own.  What plain
+    validation accepts must be what it was."""
+    if _EXTENDED:
+        return
+    _EXTENDED.append(True)
+    from d42.substitution import SubstitutorValidator
+
+    class LenientSubstitutorValidator(SubstitutorValidator, extend=True):
+        def visit_int(self, schema, **kwargs):
+            return self.make_validation_result()
+
+        def visit_str(self, schema, **kwargs):
+            return self.make_validation_result()
+
+        def visit_none(self, schema, **kwargs):
+            return self.make_validation_result()
+
+        def visit_list(self, schema, **kwargs):
+            return self.make_validation_result()
+
+        def visit_dict(self, schema, **kwargs):
+            return self.make_validation_result()
+
+        def visit_any(self, schema, **kwargs):
+            return self.make_validation_result()
+
+        def visit_mc_only(self, schema, **kwargs):
+            return None
+
+
 def worker(shard, nshards, tier, seed):
     acc = Acc()
     U = universe(tier)
@@ -100,6 +135,18 @@ def worker(shard, nshards, tier, seed):
                                   case_tv(ot, v, derived=src_term(t)))
         if i % 97 == 0:
             acc.sample({"schema": show(t), "values": len(vals), "accepted_by_model": n_acc})
+    # last in the shard (a process of its own): after a user extension of another visitor class
+    user_extensions()
+    for i, t in shard_items(U, shard, nshards):
+        s, err = try_build(t)
+        if s is None:
+            continue
+        acc.count("schemas_again_after_user_extensions")
+        for v in value_universe(t, 24)[0]:
+            acc.count("pairs")
+            sig = check_pair(t, s, v)
+            if sig:
+                acc.violation(sig + "|after-user-extensions", case_tv(t, v, user_extensions=True))
     return acc
 
 
@@ -151,4 +198,8 @@ def replay(case):
     s, err = try_build(t)
     if s is None:
         return f"build failed: {err!r}"
+    if case.get("user_extensions"):
+        user_extensions()
+        sig = check_pair(t, s, v)
+        return sig + "|after-user-extensions" if sig else None
     return check_pair(t, s, v)
